@@ -24,21 +24,25 @@ var commonAssumptions = []string{
 var props = map[string]propSpec{
 	"C02": {
 		QuickShards: 8, ThoroughShards: 16,
+		Fuzz:        []fuzzSpec{{"FuzzC02MulQuo", 60}},
 		Rule:        "rapid draws operand pairs for Mul/Quo (independent; both coefficients below 2^64; exact-tie products 5^k*u x 2^(k-1)*v; near-tie products and quotients built with modular inverses so that the exact result is cr + 1/2 -/+ tiny; terminating quotients with divisors 2^a*5^b; extreme-word divisors; zero operands) with exponents steered to the flush/subnormal and overflow windows; every pair is evaluated under 6 modes and 6 DefaultRoundingMode values against the exact product / rational quotient rounded by ref.RoundX with the flush rule. Non-trivial = result not exactly representable, or flushed, or overflowing; distinct = distinct (x bits, y bits, op).",
 		Assumptions: commonAssumptions,
 	},
 	"C03": {
 		QuickShards: 8, ThoroughShards: 16,
+		Fuzz:        []fuzzSpec{{"FuzzC03QuoRem", 60}},
 		Rule:        "rapid draws (x, y) for QuoRem with exponent gaps -40..60 (every scaling arm), gaps up to 12287 (quotients with thousands of digits), x = k*y + delta units, same value in another cohort +/- 1 unit, 64-bit fast-path operands, zero dividends and the special classes of the statement; 6 modes each; oracle = big.Int QuoRem at the common exponent (remainder exact, quotient exact or RoundX). Non-trivial = non-zero integer quotient; distinct = distinct (x bits, y bits).",
 		Assumptions: commonAssumptions,
 	},
 	"C04": {
 		QuickShards: 8, ThoroughShards: 16,
+		Fuzz:        []fuzzSpec{{"FuzzC04Order", 45}},
 		Rule:        "rapid draws triples (x, y, z): arbitrary patterns, near-equal values re-encoded in other cohort members +/- one unit at every exponent gap 0..35, zeros/Inf/NaN mixes, equal-length magnitudes; all 9 ordered pairs are checked for Cmp, CmpAbs, Equal, Compare, Min, Max against the exact order, plus IsZero/Sign and transitivity on the triple. Non-trivial = x and y finite, non-zero, same sign and within a factor 10 (scaled coefficients must be compared); distinct = distinct bit triple.",
 		Assumptions: commonAssumptions,
 	},
 	"C08": {
 		QuickShards: 8, ThoroughShards: 16,
+		Fuzz:        []fuzzSpec{{"FuzzC08Quantise", 45}},
 		Rule:        "rapid draws (d, dp): dp near d's own digit positions, -7000..7000, threshold windows (+-6111, +-6145, +-6176), int extremes (MinInt, MaxInt, int32 bounds); tie/near-tie constructor at the rounding position incl. carry chains; values at the top of the range. Round under 6 modes (with the below-one-tenth-quantum flush rule), Ceil, Floor, the four package functions, idempotence, distance <= one quantum, specials unchanged; oracle = exact integer quantisation. Non-trivial = at least one non-zero digit is dropped; distinct = distinct (bits, dp).",
 		Assumptions: commonAssumptions,
 	},
@@ -125,6 +129,7 @@ var props = map[string]propSpec{
 	},
 	"C01": {
 		QuickShards: 8, ThoroughShards: 16,
+		Fuzz:        []fuzzSpec{{"FuzzC01AddSub", 60}},
 		Rule:        "rapid draws operand pairs (independent; exponent gap -45..45; tie/near-tie constructor at the 34/35-digit boundary; near-cancellation across cohorts; swallowed operand up to gap 12287; zeros; overflow edge) and add/sub; every pair is evaluated under all 6 modes and under all 6 DefaultRoundingMode values against the exact integer sum rounded by ref.RoundX. Non-trivial = the exact sum is not representable (rounding decides) or the operands cancel exactly; distinct = distinct (x bits, y bits, op).",
 		Assumptions: commonAssumptions,
 	},
